@@ -358,6 +358,9 @@ def rule_bsc(repo: Repo, rep: Report) -> int:
     fi = repo.func(DG, "BinarySymmetricChannel.forward")
     n = bernoulli_sites(rep, fi, "self.crossover_prob")
     rep.floor("BSC Bernoulli sites", n, 1)
+    ne = history_first(repo, rep, fi, "BinarySymmetricChannel", "crossover_prob", "bsc")
+    if ne is not None:
+        return n + ne + rule_params(repo, rep, "BinarySymmetricChannel", "crossover_prob")
     inl = Inliner(fi)
     ys = [s for s in fi.body if isinstance(s, ast.Assign) and unparse(s.targets[0]) == "y"]
     flag_ = [s for s in stmts_of(fi.body) if isinstance(s, ast.Assign) and isinstance(s.targets[0], ast.Name) and s.targets[0].id == "neg_one_format"]
@@ -395,10 +398,124 @@ def rule_bsc(repo: Repo, rep: Report) -> int:
     return n
 
 
+def digital_history_evaluated(repo: Repo, cname: str, prob_param: str, kind: str):
+    """forward of the Z / erasure channel, with the class's own helper methods followed and the attributes the constructor
+    sets carried from call to call, evaluated (own arithmetic) on histories of two blocks on one channel object: every
+    pairing of a {0,1} and a -1/+1 block, probabilities 0, 0.5 and 1, uniform draws from a fixed table.  Each output must
+    be the block with exactly the drawn symbols replaced (Z: a 1 whose draw is below p becomes 0; erasure: a symbol
+    whose draw is below p becomes the erasure symbol), in the block's own alphabet.
+    Returns (status, detail, words) or (None, reason, 0)."""
+    from ..constfold import Unfoldable
+    from ..frag import FragRaise, FragReturn, coverage_scope, run_fragment
+
+    ci = repo.cls(DG, cname)
+    fi = repo.method(ci, "forward")
+    init = repo.method(ci, "__init__")
+    # a bool flip mask added arithmetically is a logical OR for bool-typed bits: outside the evaluator's (untyped) values
+    for s_ in stmts_of(fi.body):
+        if isinstance(s_, ast.Assign) and isinstance(s_.value, ast.Compare) and isinstance(s_.targets[0], ast.Name):
+            nm_ = s_.targets[0].id
+            if any(isinstance(b, ast.BinOp) and isinstance(b.op, (ast.Add, ast.Sub)) and any(isinstance(o, ast.Name) and o.id == nm_ for o in (b.left, b.right)) for b in ast.walk(fi.node)):
+                return None, "a comparison result is used arithmetically (bool-typed arithmetic is not modelled)", 0
+    funcs = {f"self.{nm}": m.node for nm, m in ci.methods.items() if nm not in ("forward", "__init__")}
+    flat_draws = [d for r in BSC_DRAWS for d in r]
+    mode = []
+
+    def shaped(t, **kw):
+        if isinstance(t, list) and len(t) == 2 and all(isinstance(r, list) and len(r) == 4 for r in t):
+            mode.append("full")
+            return [list(r) for r in BSC_DRAWS]
+        if isinstance(t, list) and all(not isinstance(v, list) for v in t) and len(t) <= len(flat_draws):
+            mode.append("flat")
+            return list(flat_draws[: len(t)])
+        raise ValueError("draws for another shape")
+
+    def state(p, sym):
+        attrs = {}
+        names = {prob_param: p, "erasure_symbol": sym, "args": [], "kwargs": {}}
+        for st in stmts_of(init.body):
+            if isinstance(st, ast.Assign) and len(st.targets) == 1 and (attr_chain(st.targets[0]) or "").startswith("self."):
+                try:
+                    run_fragment([st], dict(names), attrs, ctors={"to_tensor": lambda v, **kw: v}, attrs_live=True)
+                except (Unfoldable, FragRaise, FragReturn):
+                    return None
+        return attrs
+
+    bad, words = [], 0
+    scope = coverage_scope()
+    scope.__enter__()
+    try:
+        for p, sym in ((0.5, -7.0), (0.0, -7.0), (1.0, -7.0)) + (((0.5, float("inf")),) if kind == "bec" else ()):
+            for ia, ib in ((0, 2), (1, 0), (2, 1)):
+                for bip in ((False, False), (False, True), (True, False), (True, True)):
+                    attrs = state(p, sym)
+                    if attrs is None:
+                        return None, "the constructor's attribute assignments could not be evaluated", 0
+                    hist = []
+                    for bits, bipolar in ((BSC_INPUTS[ia], bip[0]), (BSC_INPUTS[ib], bip[1])):
+                        x = [[(2 * b - 1 if bipolar else b) * 1.0 for b in r] for r in bits]
+                        del mode[:]
+                        try:
+                            run_fragment(fi.body, {"x": [list(r) for r in x], "args": [], "kwargs": {}}, attrs, funcs=funcs, ctors={"torch.rand_like": shaped}, max_steps=60000, attrs_live=True)
+                            return None, "no value returned", 0
+                        except FragReturn as ret:
+                            got = ret.value
+                        except (Unfoldable, FragRaise, ValueError, TypeError, IndexError) as exc:
+                            return None, str(exc), 0
+                        if not (isinstance(got, list) and len(got) == 2 and all(isinstance(r, list) and len(r) == 4 and all(isinstance(v, (int, float)) and not isinstance(v, bool) for v in r) for r in got)):
+                            return None, "the output is not a (2, 4) numeric block", 0
+                        if len(set(mode)) > 1 or (p > 0 and not mode and kind in ("bec", "bsc")):
+                            return None, "draws requested in more than one layout", 0
+                        flat_bits = [b for r in bits for b in r]
+                        if kind == "z":
+                            if mode and mode[0] == "flat":
+                                ones = [i for i, b in enumerate(flat_bits) if b == 1]
+                                hit = {i: flat_draws[j] < p for j, i in enumerate(ones)}
+                            else:
+                                hit = {i: flat_draws[i] < p for i in range(8)}
+                            want_bits = [0 if (b == 1 and hit.get(i, False)) else b for i, b in enumerate(flat_bits)]
+                            want = [(2 * b - 1 if bipolar else b) * 1.0 for b in want_bits]
+                        elif kind == "bsc":
+                            if not mode or mode[0] == "flat":
+                                return None, "flip draws not taken for the whole block", 0
+                            want = [((b ^ 1) if flat_draws[i] < p else b) for i, b in enumerate(flat_bits)]
+                            want = [(2 * b - 1 if bipolar else b) * 1.0 for b in want]
+                        else:
+                            if mode and mode[0] == "flat":
+                                return None, "erasure draws taken for a subset of the positions", 0
+                            want = [sym if flat_draws[i] < p else (2 * b - 1 if bipolar else b) * 1.0 for i, b in enumerate(flat_bits)]
+                        gotf = [float(v) for r in got for v in r]
+                        hist.append(("-1/+1" if bipolar else "{0,1}"))
+                        words += 1
+                        if gotf != want or any(v != v for v in gotf):
+                            bad.append((f"erasure symbol {sym}, " if kind == "bec" else "") + f"p = {p}, blocks sent on one channel object: {' then '.join(hist)}; block {len(hist)} x = {x[0]}... gives {gotf[:4]}..., expected {want[:4]}...")
+                            break
+    finally:
+        scope.__exit__()
+    gap = scope.note([fi.node] + [f.node for nm, f in ci.methods.items() if f"self.{nm}" in funcs and any(isinstance(c, ast.Call) and attr_chain(c.func) == f"self.{nm}" for c in ast.walk(fi.node))])
+    if bad:
+        return VIOLATION, {"z": "Z-channel", "bec": "erasure channel", "bsc": "symmetric channel"}[kind] + " output is not the block with exactly the drawn symbols replaced, in the block's own alphabet: " + "; ".join(bad[:2]), words
+    if gap:
+        return None, f"branches never reached by the samples: {gap}", 0
+    return OK, f"{words} blocks in two-block histories ({{0,1}} / -1,+1 in every order, p = 0, 0.5, 1): " + ("a 1 becomes 0 exactly where its draw is below p, a 0 never changes" if kind == "z" else "a symbol is exchanged for the other one exactly where its draw is below p" if kind == "bsc" else "a symbol becomes the erasure symbol exactly where its draw is below p, the others are unchanged") + "; the output stays in the block's own alphabet whatever was sent before", words
+
+
+def history_first(repo: Repo, rep: Report, fi: FuncInfo, cname: str, prob_param: str, kind: str) -> Optional[int]:
+    """The evaluated two-block histories decide the transition clause whatever the spelling; None when not evaluable."""
+    st_, d_, _w = digital_history_evaluated(repo, cname, prob_param, kind)
+    if st_ is None:
+        return None
+    rep.add("TRANSITION", fi, f"{cname}.forward evaluated on two-block histories ({{0,1}} and -1/+1 blocks in every order, fixed table of uniform draws)", st_, d_, node=fi.node)
+    return 4
+
+
 def rule_bec(repo: Repo, rep: Report) -> int:
     fi = repo.func(DG, "BinaryErasureChannel.forward")
     n = bernoulli_sites(rep, fi, "self.erasure_prob")
     rep.floor("BEC Bernoulli sites", n, 1)
+    ne = history_first(repo, rep, fi, "BinaryErasureChannel", "erasure_prob", "bec")
+    if ne is not None:
+        return n + ne + rule_params(repo, rep, "BinaryErasureChannel", "erasure_prob")
     rets0 = returns_of(fi.node)
     out = unparse(rets0[0].value) if len(rets0) == 1 and isinstance(rets0[0].value, ast.Name) else "y"  # the name does not matter
     ys = [s for s in fi.body if isinstance(s, ast.Assign) and unparse(s.targets[0]) == out]
@@ -428,6 +545,9 @@ def rule_z(repo: Repo, rep: Report) -> int:
     set_parents(fi.node)
     n = bernoulli_sites(rep, fi, "self.error_prob")
     rep.floor("Z Bernoulli sites", n, 1)
+    ne = history_first(repo, rep, fi, "BinaryZChannel", "error_prob", "z")
+    if ne is not None:
+        return n + ne + rule_params(repo, rep, "BinaryZChannel", "error_prob")
     inl = Inliner(fi, allow_loop_defs=True)
     stores = [s for s in stmts_of(fi.body) if isinstance(s, ast.Assign) and isinstance(s.targets[0], ast.Subscript)]
     for s in stores:
